@@ -124,7 +124,11 @@ Triples == IF ~Thorough THEN {} ELSE
                                           ELSE Rnd(s * 196 + t * 14 + u, i)]), 1, ChainLeaf(s + t + u))
               : s \in 1..14, t \in 1..14, u \in 1..14, D \in {32, 33}}
 Ladder == {ChainOf(Tup([i \in 1..(D - 1) |-> Rnd(D, i)]), 1, ChainLeaf(D)) : D \in 2..40}
-Chains == Uniform \cup Pairs \cup Triples \cup Ladder
+\* childless containers as the deepest node, exactly on the limit and one beyond it: a container with no
+\* element has no value on the next level, so it is as deep as a scalar
+BoundaryLeaves == {VVec(<<>>), VMap("U8", {}), VSet("U8", {}), VStruct({}), VBytes(<<>>)}
+Boundary == {ChainOf(Tup([i \in 1..(D - 1) |-> s]), 1, leaf) : s \in 1..14, D \in {32, 33}, leaf \in BoundaryLeaves}
+Chains == Uniform \cup Pairs \cup Triples \cup Ladder \cup Boundary
 
 Domain == CASE Part = "leaves" -> Leaves [] Part = "level1" -> Level1 [] Part = "level23" -> Level2 \cup Level3
             [] Part = "chains" -> Chains [] OTHER -> Leaves \cup Level1 \cup Level2 \cup Level3 \cup Chains
